@@ -92,6 +92,7 @@ type pathState struct {
 	variants map[*LoopInfo][]Term
 	unrolls  map[*LoopInfo]int
 	trail    []string
+	midFork  *pathState // a path split off in the middle of a block (continues after the current instruction)
 }
 
 func (ps *pathState) fork() *pathState {
@@ -825,12 +826,26 @@ func (fx *FuncExec) execBlock(ps *pathState, blk *ssa.BasicBlock, pred *ssa.Basi
 	}
 	ps.trail = append(ps.trail, fmt.Sprintf("b%d", blk.Index))
 	ps.pred = pred
-	for _, in := range blk.Instrs {
+	fx.execFrom(ps, blk, 0)
+}
+
+func (fx *FuncExec) execFrom(ps *pathState, blk *ssa.BasicBlock, start int) {
+	for i := start; i < len(blk.Instrs); i++ {
 		if fx.aborted != "" {
 			return
 		}
-		if fx.execControl(ps, blk, in) {
+		if fx.execControl(ps, blk, blk.Instrs[i]) {
 			return
+		}
+		if f := ps.midFork; f != nil {
+			ps.midFork = nil
+			f.pred = ps.pred
+			fx.paths++
+			if fx.paths > fx.maxPaths {
+				fx.aborted = fmt.Sprintf("path limit %d exceeded", fx.maxPaths)
+				return
+			}
+			fx.execFrom(f, blk, i+1)
 		}
 	}
 }
